@@ -27,6 +27,46 @@ def missing_to_empty(rows, ty):
     return [[[n, []] for n, _ in ty] if r is None else r for r in rows]
 
 
+def array_prehistory(ctx, s: Subject):
+    """one or two rows of the column are replaced IN PLACE (by a table of another size, an empty table, or a missing
+    value given as None / pd.NA) before the operation under test; the subject continues with the storage that leaves"""
+    from .ops_array import df_of_row
+    rng = ctx.rng
+    ext = s.fresh_ext()
+    n = len(ext)
+    if n == 0 or s.hyp.get("hidden"):
+        return False
+    rows = list(s.content["rows"])
+    steps = []
+    for _ in range(rng.randint(1, 2)):
+        i = rng.randrange(n)
+        new_row = gen.rand_row(rng, s.ty, p_missing=0.5, p_empty=0.1, maxlen=4)
+        val = df_of_row(new_row, s.ty) if new_row is not None else rng.choice([None, pd.NA])
+        # (a table is handed to the array itself: what pandas makes of a DataFrame given to Series.iloc is its own matter)
+        how = rng.choice(["array", "series_iloc", "mask"]) if new_row is None else rng.choice(["array", "mask"])
+        try:
+            if how == "array":
+                ext[i] = val
+            elif how == "mask":
+                m = np.zeros(n, dtype=bool)
+                m[i] = True
+                ext[m] = val
+            else:
+                ser = pd.Series(ext, copy=False)
+                ser.iloc[i] = val
+                ext = ser.array
+        except Exception as e:   # noqa: BLE001
+            ctx.case("prehistory.setitem", {**s.desc(), "pos": i, "row": new_row, "how": how},
+                     {"err": type(e).__name__, "msg": str(e)[:120]}, None, {"ok": True}, hyp=s.hyp)
+            return False
+        rows[i] = new_row
+        steps.append([i, how, new_row is None])
+    s.adopt(ctx, ext, rows, tag="assigned")
+    ctx.case("prehistory.setitem", {**s.desc(), "steps": steps}, {"ok": weak_rows(s.abs_rows)}, None,
+             {"ok": weak_rows(rows)}, hyp=s.hyp, features=s.features, nontrivial=True)
+    return True
+
+
 def case_interchange(ctx, s: Subject):
     from nested_pandas.series.utils import (transpose_list_struct_array, transpose_struct_list_array,
                                             transpose_struct_list_type, transpose_list_struct_type)
